@@ -38,7 +38,8 @@
    and behaves like the drivers.Port contract says: Open on an open port is a no-op without error, Close likewise,
    Open fails iff the fault is set (the port stays closed), closing an in port ends its listening, Listen needs an
    open port, Send on a closed port is an error, Driver.Close closes all ports of that driver.
-   A port is [k |-> "in" | "out", d |-> driver instance, i |-> position in the listing].                          *)
+   A port is [k |-> "in" | "out", d |-> driver instance, i |-> position in the listing].
+   (Part M of X05 -- the real process-backed driver midicatdrv below the same registry -- is spec/RegistryMidicat.tla.) *)
 EXTENDS Integers, Sequences, FiniteSets
 
 RgNoPort == [k |-> "none", d |-> 0, i |-> 0]
